@@ -78,6 +78,14 @@ def enlarge (b : ABitmap) (add : Nat) : Res ABitmap := do
   let mapSize := divCeil size 64
   pure { b with byteSize := bs, size := size, map := resizeWords b.map mapSize }
 
+/-- `enlarge` as compiled without overflow checks: `byte_size += additional_size` wraps.
+    (A VMM-chosen operand, not a guest one; outside every property's quantifier, kept so
+    that the correspondence run can follow the real code in both build profiles.) -/
+def enlargeUnchecked (b : ABitmap) (add : Nat) : ABitmap :=
+  let bs := wrappingAdd b.byteSize add
+  let size := divCeil bs b.page
+  { b with byteSize := bs, size := size, map := resizeWords b.map (divCeil size 64) }
+
 /-- `is_bit_set`: program = one load when in range.  `self.map[index >> 6]` is an
     indexing operation: out of range ⇒ panic. -/
 def isBitSet (b : ABitmap) (i : Nat) : Res Bool :=
